@@ -184,6 +184,12 @@ class Oracle:
                     m = self.dvec_ok(vec)
                     if m:
                         bad.append("op %d (%s): %s" % (i, o, m))
+                if "E" in vec:
+                    # a getter of a listed parameter fails: already recorded above; nothing else can be judged on this vector
+                    pend = [p for p in pend if p[1] != key]
+                    fresh.discard(key)
+                    last[key] = None
+                    continue
                 if key in fresh:
                     fresh.discard(key)
                     if k0 != "dvec":
@@ -832,11 +838,39 @@ def run_adjust_tie(ctx, env, rng, found):
 
 # --------------------------------------------------------------------------- entry
 
+def my_gen_current():
+    """coq/Gen is shared by every ./check process; a concurrent run on ANOTHER tree (ZV_REPO) can rewrite it between
+    this run's regeneration and its proof / extraction steps.  True when the two files C16 depends on still hold what
+    the dumper built from THIS run's tree prints."""
+    c = core.build_harness("dump_c", ["dump_c.c"], variant="o1", extra_flags=["-w"])
+    for fn, arg in (("Gen_Bounds.v", "b"), ("Gen_Levels.v", "l")):
+        rc, out, err = core.sh([c, arg], timeout=60)
+        try:
+            if rc != 0 or open(os.path.join(core.COQ, "Gen", fn)).read() != out:
+                return False
+        except OSError:
+            return False
+    return True
+
+
+def with_my_gen(fn, what):
+    """run fn() with coq/Gen holding this tree's tables before and after; retry when another process interfered."""
+    from .. import gen
+    for attempt in range(4):
+        if not my_gen_current():
+            core.log("coq/Gen was rewritten by another run: regenerating before " + what)
+            gen.regen_all(force=True)
+        r = fn()
+        if my_gen_current():
+            return r
+    return r
+
+
 def run(ctx):
     rng = random.Random(ctx.seed * 7919 + 16)
     variant = "o1"
     cx = core.build_harness("c16_params", ["c16_params.c", "c16_dint.c"], variant=variant, extra_flags=["-w"])
-    ml = core.build_extracted("c16model", "Extract/Extract_C16.v", "c16_driver.ml")
+    ml = with_my_gen(lambda: core.build_extracted("c16model", "Extract/Extract_C16.v", "c16_driver.ml"), "extraction")
     env = Env(ml, cx)
     oracle = Oracle(env)
 
@@ -922,7 +956,7 @@ def run(ctx):
         report(ctx, shrink(env, oracle, p), lim)
 
     # ---- proof
-    ctx.prove()
+    with_my_gen(ctx.prove, "the proof step")
 
     def search(broken):
         # a broken obligation: the grid above already ran the property statement on the implementation
@@ -931,7 +965,8 @@ def run(ctx):
                 for p in found[:2]]
     if found:
         # already reported with concrete inputs; do not add a second no-input line unless the proof is what broke alone
-        if ctx.proof and (ctx.proof["broken"] or len(ctx.proof["discharged"]) != len(ctx.proof["obligations"])):
-            core.log("proof obligations broken as well:", [b[0] for b in ctx.proof["broken"]][:5])
+        pr = getattr(ctx, "proof", None)
+        if pr and (pr["broken"] or len(pr["discharged"]) != len(pr["obligations"])):
+            core.log("proof obligations broken as well:", [b[0] for b in pr["broken"]][:5])
     else:
         ctx.proof_verdict(search)
